@@ -534,6 +534,58 @@ def build_feat(ft, sp, dialect_name="sqlite"):
     raise ValueError(k)
 
 
+# --------------------------------------------------------------------------- type-argument boundary variants
+_TYPE_CONTEXT = {("Numeric", "scale"): {"precision": 10}, ("Float", "decimal_return_scale"): {"asdecimal": True}, ("Numeric", "decimal_return_scale"): {"precision": 12, "scale": 4}}
+_INT_ARGS = ("length", "precision", "scale", "decimal_return_scale", "second_precision", "day_precision")
+
+
+def type_variant_groups(sa):
+    """{(class name, ctor argument): [(label, type instance), ...]} — for every public
+    constructor argument of the common SQL types: unset, the falsy boundary value
+    (0 / False / '') and a truthy value"""
+    import inspect
+
+    out = {}
+    classes = [sa.Numeric, sa.Float, sa.String, sa.Unicode, sa.Text, sa.DateTime, sa.Time, sa.Boolean, sa.LargeBinary, sa.Interval, sa.Double, sa.DECIMAL, sa.VARCHAR, sa.CHAR, sa.TIMESTAMP, sa.JSON, sa.Uuid]
+    for cls in classes:
+        try:
+            sig = inspect.signature(cls.__init__)
+        except (TypeError, ValueError):
+            continue
+        for pname, par in sig.parameters.items():
+            if pname == "self" or par.kind in (par.VAR_POSITIONAL, par.VAR_KEYWORD) or pname.startswith("_"):
+                continue
+            if pname in _INT_ARGS:
+                vals = [("unset", None), ("0", 0), ("7", 7)]
+            elif isinstance(par.default, bool):
+                vals = [("False", False), ("True", True)]
+            elif pname == "collation":
+                vals = [("unset", None), ("''", ""), ("nocase", "nocase")]
+            else:
+                continue
+            ctxkw = _TYPE_CONTEXT.get((cls.__name__, pname), {})
+            vs = []
+            for lbl, v in vals:
+                kw = dict(ctxkw)
+                if v is not None:
+                    kw[pname] = v
+                try:
+                    vs.append(("%s(%s=%s)" % (cls.__name__, pname, lbl), cls(**kw)))
+                except Exception:
+                    pass
+            if len(vs) >= 2:
+                out[(cls.__name__, pname)] = vs
+    return out
+
+
+def type_desc(t):
+    """constructor-level identity of a type instance (None = unset)"""
+    from sqlalchemy import util
+
+    names = util.get_cls_kwargs(type(t))
+    return (type(t).__name__, tuple(sorted((k, repr(v)) for k, v in t.__dict__.items() if k in names and not k.startswith("_") and v is not None)))
+
+
 DIALECTS = ["sqlite", "postgresql", "mysql", "mssql", "oracle"]
 
 
@@ -579,5 +631,9 @@ def compile_via(stmt, dialect, cache, params=None):
         canon = lb.substitute(style, sql, dbparams)
     else:
         canon = lb.substitute(style, sql, dbparams)
-    types = sorted(repr(bp.type._static_cache_key) for bp in compiled.bind_names)
+    types = sorted(repr(type_desc(bp.type)) for bp in compiled.bind_names)
+    try:
+        types += ["result:" + repr(type_desc(rc[3])) for rc in compiled._result_columns]
+    except Exception:
+        pass
     return canon, types, str(hit), sql
